@@ -3594,8 +3594,9 @@ func (p *parser) parseStmt(allowCmd bool) (s ast.Stmt) {
 		// (handle correctly anyway)
 		s = &ast.EmptyStmt{Semicolon: p.pos, Implicit: p.lit == "\n"}
 		p.next()
-	case token.RBRACE:
-		// a semicolon may be omitted before a closing "}"
+	case token.RBRACE, token.EOF:
+		// a semicolon may be omitted before a closing "}" (and, for the
+		// statements at file level, before the end of the file)
 		s = &ast.EmptyStmt{Semicolon: p.pos, Implicit: true}
 	default:
 		// no statement found
